@@ -27,8 +27,16 @@ type crossCase struct {
 
 func genCrossCase(r *Rng) crossCase {
 	nl := 2 + r.Intn(3)
+	tall := r.Bool(30) // many narrow layers: the sum over layer pairs, whatever way it is organised
+	if tall {
+		nl = 14 + r.Intn(40)
+	}
 	widths := make([]int, nl)
 	for i := range widths {
+		if tall {
+			widths[i] = 1 + r.Intn(4)
+			continue
+		}
 		switch r.Intn(8) {
 		case 0, 1, 2:
 			widths[i] = 1 + r.Intn(8)
